@@ -48,23 +48,27 @@ impl ConvertibleIn<DimNameState> for DimVar {
             let var_type = on_dim_type(var_type, &bare_name, ctx, extra)?;
             (var_type, None)
         };
-        if is_redim && redim_of_shared_array_of_module(ctx, &bare_name) {
+        let existing_shared = is_redim && is_existing_shared_dynamic_array(ctx, &bare_name);
+        if existing_shared && ctx.is_in_subprogram() {
             // REDIM of a SHARED array of the module inside a subprogram:
             // it is the same array, not a new local one
         } else {
-            ctx.names
-                .insert(bare_name.clone(), &var_type, shared, redim_info);
+            // REDIM of an array that is already SHARED: it stays SHARED
+            ctx.names.insert(
+                bare_name.clone(),
+                &var_type,
+                shared || existing_shared,
+                redim_info,
+            );
         }
         Ok(Self::new(bare_name, var_type))
     }
 }
 
-/// Checks if the name is a SHARED dynamic array of the module,
-/// seen from a subprogram that does not have a variable of that name of its own.
-fn redim_of_shared_array_of_module(ctx: &LinterContext, bare_name: &BareName) -> bool {
-    if !ctx.is_in_subprogram() {
-        return false;
-    }
+/// Checks if the name is a SHARED dynamic array of the module
+/// (seen from the module itself, or from a subprogram
+/// that does not have a variable of that name of its own).
+fn is_existing_shared_dynamic_array(ctx: &LinterContext, bare_name: &BareName) -> bool {
     let found = ctx.names.find_name_or_shared_in_parent(bare_name);
     !found.is_empty()
         && found
